@@ -425,13 +425,23 @@ func TestC16Races(t *testing.T) {
 
 var errBudget = errors.New("verif: step budget exceeded")
 
+type nA struct{}
+type nB struct{}
+type nC struct{}
+type nD struct{}
+
+func (nA) EventTypeName() string { return "A" }
+func (nB) EventTypeName() string { return "B" }
+func (nC) EventTypeName() string { return "C" }
+func (nD) EventTypeName() string { return "D" }
+
 func TestC16Termination(t *testing.T) {
 	run := vk.New("C16", "termination")
 	defer run.Finish()
 	var cur string
 	dog := watchdog.Start(20*time.Second, func(v watchdog.Verdict) {
 		if v.Deadlock {
-			run.Violation("upcast-apply:does-not-terminate", "ReplayWithUpcast did not return: "+cur, map[string]any{"case": cur, "dump": v.Dump[:min(len(v.Dump), 8000)]})
+			run.Violation("upcast-apply:does-not-terminate", "ReplayWithUpcast / SubscribeWithReplay did not return: "+cur, map[string]any{"case": cur, "dump": v.Dump[:min(len(v.Dump), 8000)]})
 		} else {
 			run.Count("watchdog_slow_windows", 1)
 			return
@@ -540,6 +550,25 @@ func TestC16Termination(t *testing.T) {
 			dog.Tick()
 			if exceeded || err != nil || delivered != len(names) {
 				run.Violation("upcast-apply:step-budget-exceeded", fmt.Sprintf("registry %v with raw upcasters returning %v: upcasting one stored event invoked upcasters more than %d times (err=%v, delivered %d of %d)", es, assign, budget, err, delivered, len(names)), map[string]any{"edges": es, "returns": assign})
+			}
+			// the same log through typed replay subscriptions (one per name): their replay phase upcasts
+			// every stored event too and has to terminate likewise
+			perEvent := budget
+			budget = perEvent * len(names)
+			for si, sub := range []func() error{
+				func() error { return ebu.SubscribeWithReplay(context.Background(), bus, "sA", func(nA) {}) },
+				func() error { return ebu.SubscribeWithReplay(context.Background(), bus, "sB", func(nB) {}) },
+				func() error { return ebu.SubscribeWithReplay(context.Background(), bus, "sC", func(nC) {}) },
+				func() error { return ebu.SubscribeWithReplay(context.Background(), bus, "sD", func(nD) {}) },
+			}[:len(names)] {
+				calls = 0
+				serr := sub()
+				dog.Tick()
+				if calls > budget {
+					run.Violation("upcast-apply:step-budget-exceeded", fmt.Sprintf("registry %v with raw upcasters returning %v: the replay phase of SubscribeWithReplay for type %q invoked upcasters more than %d times for %d stored events (err=%v)", es, assign, names[si], budget, len(names), serr), map[string]any{"edges": es, "returns": assign, "subscribed": names[si]})
+					break
+				}
+				run.Count("replay_subscriptions_over_upcast_registries", 1)
 			}
 			run.Case(cur, differs)
 			run.Max("max_upcaster_calls_for_one_event", int64(perEventMax))
